@@ -23,7 +23,7 @@ RULE = (
     "cancellation then runs 1 or 3 more} x timeout 2 x caller cancel at {never, before first "
     "step, 1, 2, 3, 5}; all orders of timers with equal deadline, with and without landing in "
     "one loop iteration; wrapped function that is itself a wrapper object (timeout(10), throttle); "
-    "two overlapping calls through one wrapped function; non-trivial = not the plain 'value before deadline, no cancel' case"
+    "two overlapping calls through one wrapped function; one wrapper used under two event loops in a row; a second timeout derived from a timeout wrapper, both used afterwards; non-trivial = not the plain 'value before deadline, no cancel' case"
 )
 ASSUMPTIONS = [
     "virtual time in exact dyadic units; timers with different deadlines fire in deadline order",
@@ -78,6 +78,17 @@ def programs(tier: str):
     for d in (1,):
         for kind in ("value", "exc"):
             yield {"d": d, "kind": kind, "tc": None, "batch": 1, "cancel_at_return": True}
+    # ONE wrapper used under two event loops one after the other (a module-level decorated
+    # function and two asyncio.run calls), every outcome in each
+    for d1 in (1, 3):
+        for d2 in (1, 3):
+            yield {"loops": [d1, d2]}
+    # a stricter / laxer timeout derived from an existing timeout wrapper: the original wrapper
+    # keeps its own deadline afterwards
+    for derived in (0.5, 4.0):
+        for d in (1, 3):
+            for use_derived_first in (False, True):
+                yield {"stacked": derived, "d": d, "use_derived_first": use_derived_first}
     # two overlapping calls through one wrapped function, each with its own deadline
     for da in (1, 3):
         for db in (1, 3):
@@ -136,9 +147,71 @@ def _pair(program, ch: Chooser) -> Result:
         w.close()
 
 
+def _call_once(fn, d: float, ch: Chooser, label: str):
+    """one call of fn(d) under a fresh world; -> (kind, seconds) or ('hang', None)"""
+    w = World(ch)
+    out: dict = {}
+    try:
+
+        async def caller():
+            t0 = now()
+            try:
+                out["r"] = ("value", await fn(d), now() - t0)
+            except TimeoutError:
+                out["r"] = ("timeout", None, now() - t0)
+            except BaseException as exc:  # noqa: BLE001
+                out["r"] = ("other", f"{type(exc).__name__}: {exc}"[:100], now() - t0)
+
+        t = w.task(caller(), name=label)
+        try:
+            w.run()
+        except Livelock:
+            return ("hang", None, None)
+        if not t.done():
+            return ("hang", None, None)
+        return out.get("r", ("none", None, None))
+    finally:
+        w.close()
+
+
+def _sequential(program, ch: Chooser) -> Result:
+    viols: list[dict] = []
+    obs: dict = {}
+
+    async def body(d):
+        await asyncio.sleep(d)
+        return d
+
+    if "loops" in program:
+        fn = timeout(T)(body)
+        for i, d in enumerate(program["loops"]):
+            got = _call_once(fn, float(d), ch, f"loop{i}")
+            want = ("value", float(d), float(d)) if d < T else ("timeout", None, T)
+            obs[f"loop{i}"] = list(got)
+            if tuple(got) != want:
+                viols.append(viol("outcome" if got[0] != "hang" else "termination", f"second-event-loop/use{i + 1}", list(want), list(got)))
+        return Result(f"loops/{program['loops']}", True, viols, obs, steps=2)
+    inner = timeout(T)(body)
+    derived = timeout(program["stacked"])(inner)
+    d = float(program["d"])
+    order = [("derived", derived, min(T, program["stacked"])), ("inner", inner, T)]
+    if not program["use_derived_first"]:
+        order.reverse()
+    order.append(("inner", inner, T))  # and the original once more at the end
+    for i, (name, fn, limit) in enumerate(order):
+        got = _call_once(fn, d, ch, f"{name}{i}")
+        want = ("value", d, d) if d < limit else ("timeout", None, limit)
+        obs[f"{i}:{name}"] = list(got)
+        if tuple(got) != want:
+            viols.append(viol("outcome" if got[0] != "hang" else "termination", f"derived-timeout/{name}-after-{'derived' if i else 'nothing'}", list(want), list(got), derived=program["stacked"]))
+    return Result(f"stacked/{program['stacked']}", True, viols, obs, steps=3)
+
+
 def execute(program, ch: Chooser) -> Result:  # noqa: C901, PLR0912, PLR0915
     if "pair" in program:
         return _pair(program, ch)
+    if "loops" in program or "stacked" in program:
+        return _sequential(program, ch)
     d, kind, tc, batch = program["d"], program["kind"], program["tc"], program["batch"]
     w = World(ch, batch=batch)
     log: list = []
